@@ -84,6 +84,9 @@ def run():
     expect_counterexample(t, "SimpsonStack{StaleLeftEstimate} violates OwnEstimate", "SimpsonStack",
                           sbase.replace("StaleLeftEstimate = FALSE", "StaleLeftEstimate = TRUE"))
 
+    bbase = open(os.path.join(vlib.SPEC, "MC_Bisection.cfg")).read().replace("PROPERTY Terminates", "")
+    expect_counterexample(t, "Bisection{FirstMidpointOutside} evaluates outside the bracket", "MC_Bisection",
+                          bbase.replace("Defects = {}", 'Defects = {"FirstMidpointOutside"}'))
     # ---- binding: IVP contract trace -----------------------------------------------------------------
     ctx = vlib.Ctx("SELFTEST", "quick", 1, "other")
     rng = random.Random(7)
@@ -128,6 +131,25 @@ def run():
     vlib.write_ndjson(path, ev2)
     r = vlib.tlc("Val_IvpMethods", cfg="Val.cfg", env={"VH_OBS": path}, timeout=600)
     t.check("one state component changed by 1e-7 -> point unexplained", any(v[1] in (k + 1, k + 2) for v in r.tagged("VIOL")))
+    # ---- binding: design-level trace (step() snapshots from the cfg(bacon_verif) hook) -----------------------------
+    cases = []
+    for solver in ("adams5", "rk23", "bdf2", "euler"):
+        rhs, y0, _ = ivpgen.system(rng, 2, 1.0, 0.0, kinds=["lin", "rough"])
+        cases.append(ivpgen.base_case(len(cases) + 1, solver, 2, 0.0, 1.2, 1e-7 if solver != "euler" else 0.05, 0.08, 1e-6, rhs, y0,
+                                      snaps=True, max_items=1000000))
+    ann = ivpcommon.annotate_snaps(ivpcommon.harness_runs(ctx, cases, tag="st", nproc=1))
+    nsnap = sum(1 for e in ann if e["ev"] == "snap")
+    drifts, nruns = ivpcommon.validate_design(ctx, ann, tag="st", nshards=1)
+    t.check("clean step() snapshot trace explained by IvpProtocol over doubles", nsnap > 50 and not drifts, "%d snapshots, %d runs" % (nsnap, nruns))
+    ann2 = copy.deepcopy(ann)
+    ks = [j for j, e in enumerate(ann2) if e["ev"] == "snap" and e["c"] == 1]
+    ann2[ks[7]]["dt"] = bump(ann2[ks[7]]["dt"], 1)
+    ann2[ks[6]]["n_dt"] = ann2[ks[7]]["dt"]
+    drifts, _ = ivpcommon.validate_design(ctx, ann2, tag="st", nshards=1)
+    t.check("one snapshot's dt changed by one ulp -> that run is rejected (drift)", [c for c, _ in drifts] == [1])
+    ann2 = [e for j, e in enumerate(ann) if j != ks[9]]          # as if the hook line were missing for one call
+    drifts, _ = ivpcommon.validate_design(ctx, ivpcommon.annotate_snaps(ann2), tag="st", nshards=1)
+    t.check("one snapshot removed (a missing hook call) -> that run is rejected (drift)", [c for c, _ in drifts] == [1])
     # ---- binding: builder trace ------------------------------------------------------------------------
     bc = [{"id": 1, "solver": "rk45", "static": True, "ctor": "new", "size": 2,
            "calls": [{"call": "min", "v": 4}, {"call": "max", "v": 2}, {"call": "tol", "v": 0}, {"call": "solve", "v": 0}]}]
